@@ -43,7 +43,7 @@ class C05(Check):
         if tier == 'quick':
             return {'point formula (N,W)': [(1, 1), (2, 1), (1, 2), (3, 1)], 'table': 'T<=3,K<=2,n<=2',
                     'finite': 'Theta=t*I_n n in {1,40,100}'}
-        return {'point formula (N,W)': [(1, 1), (2, 1), (1, 2), (3, 1), (1, 3), (2, 2), (4, 1), (1, 4)],
+        return {'point formula (N,W)': [(1, 1), (2, 1), (1, 2), (3, 1), (1, 3), (2, 2), (4, 1), (1, 4), (5, 1), (1, 5), (2, 3), (3, 2)],
                 'table': 'T<=3,K<=3,n<=3', 'finite': 'Theta=t*I_n n in {1,40,100,200}'}
 
     def configs(self, tier):
